@@ -45,8 +45,15 @@ instance (p : Proc) : Decidable (flowsClosed p) := by unfold flowsClosed; infer_
 instance (cfg : Cfg) : Decidable (GapsCover cfg) := by unfold GapsCover; infer_instance
 
 /-- the processes a list of scripts builds (each script starts at its own value of the call counter) -/
-def built (o : Nat → Nat) (scripts : List (Nat × Acts)) : List Proc :=
-  scripts.map (fun sc => (buildProcess o sc.1 sc.2).1)
+abbrev built (o : Nat → Nat) (scripts : List (Nat × Acts)) : List Proc := builtProcs o scripts
+
+/-- the scripts run one after the other (`Chained`: each starts where the previous build ended, or later) and
+their preset ids are pairwise distinct across all of them -/
+def Sequential (o : Nat → Nat) (scripts : List (Nat × Acts)) : Prop :=
+  Chained o 0 scripts ∧ (presetsOf scripts).Nodup
+
+/-- ids of everything inside the processes (process ids, flow nodes, sequence flows) -/
+def procIds (procs : List Proc) : List Id := procs.flatMap Proc.ids
 
 /-- the ids of all flow nodes of a list of processes -/
 def nodeIds (procs : List Proc) : List Id := procs.flatMap (fun p => p.nodes.map (·.id))
@@ -68,10 +75,10 @@ def C19_statement : Prop :=
     -- (a) every process the process builder hands out is well-formed
     (∀ (n : Nat) (acts : Acts), (∀ a ∈ acts, isActivity a.1) → presetsDistinct acts →
         WellFormed (buildProcess o n acts).1) ∧
-    -- (b) every list of built processes is laid out correctly under every configuration
+    -- (b) processes built one after the other share no id and are laid out correctly under every configuration
     (∀ (cfg : Cfg) (n : Nat) (scripts : List (Nat × Acts)),
-        (∀ sc ∈ scripts, (∀ a ∈ sc.2, isActivity a.1) ∧ presetsDistinct sc.2) →
-        (nodeIds (built o scripts)).Nodup → LayoutOk o cfg n (built o scripts))
+        (∀ sc ∈ scripts, ∀ a ∈ sc.2, isActivity a.1) → Sequential o scripts →
+        (procIds (built o scripts)).Nodup ∧ LayoutOk o cfg n (built o scripts))
 
 /-- the same with the hypothesis that excludes the witness below: only activity types `AddActivity` stores -/
 def C19_statement_stored : Prop :=
@@ -79,8 +86,8 @@ def C19_statement_stored : Prop :=
     (∀ (n : Nat) (acts : Acts), (∀ a ∈ acts, actOk a.1) → presetsDistinct acts →
         WellFormed (buildProcess o n acts).1) ∧
     (∀ (cfg : Cfg) (n : Nat) (scripts : List (Nat × Acts)),
-        (∀ sc ∈ scripts, (∀ a ∈ sc.2, actOk a.1) ∧ presetsDistinct sc.2) →
-        (nodeIds (built o scripts)).Nodup → LayoutOk o cfg n (built o scripts))
+        (∀ sc ∈ scripts, ∀ a ∈ sc.2, actOk a.1) → Sequential o scripts →
+        (procIds (built o scripts)).Nodup ∧ LayoutOk o cfg n (built o scripts))
 
 /-! ## (a) the process builder -/
 
@@ -266,16 +273,49 @@ theorem layoutOk_of_wellformed (o : Nat → Nat) (cfg : Cfg) (n : Nat) (procs : 
 
 /-! ## the statement -/
 
+theorem sublist_flatMap {α β : Type} (f g : α → List β) (h : ∀ a, (f a).Sublist (g a)) :
+    ∀ l : List α, (l.flatMap f).Sublist (l.flatMap g) := by
+  intro l
+  induction l with
+  | nil => simp
+  | cons x xs ih => simp only [List.flatMap_cons]; exact List.Sublist.append (h x) ih
+
+/-- processes built one after the other (any number of them, any scripts over the stored types) share no id:
+process ids, flow node ids and sequence flow ids are pairwise distinct across the whole definitions -/
+theorem sequential_ids_unique (o : Nat → Nat) (hinj : Injective o) (scripts : List (Nat × Acts))
+    (hok : ∀ sc ∈ scripts, ∀ a ∈ sc.2, actOk a.1) (hseq : Sequential o scripts) :
+    (procIds (built o scripts)).Nodup :=
+  (built_ids_nodup hinj scripts 0 hseq.1 hok hseq.2).1
+
+theorem nodeIds_nodup_of_procIds {procs : List Proc} (h : (procIds procs).Nodup) : (nodeIds procs).Nodup := by
+  refine List.Nodup.sublist (sublist_flatMap _ _ ?_ procs) h
+  intro p
+  rw [ids_unfold]
+  exact List.Sublist.cons _ (List.sublist_append_left _ _)
+
+theorem presets_distinct_of_all : ∀ (scripts : List (Nat × Acts)), (presetsOf scripts).Nodup →
+    ∀ sc ∈ scripts, presetsDistinct sc.2 := by
+  intro scripts
+  induction scripts with
+  | nil => intro _ sc hsc; cases hsc
+  | cons x xs ih =>
+    intro h sc hsc
+    simp only [presetsOf, List.flatMap_cons, List.nodup_append] at h
+    rcases List.mem_cons.mp hsc with rfl | hsc'
+    · exact h.1
+    · exact ih h.2.1 sc hsc'
+
 /-- C19 under the hypothesis that every added activity is of a type `AddActivity` stores -/
 theorem C19_holds_partial : C19_statement_stored := by
   intro o hinj
   refine ⟨fun n acts hok hpre => process_wellformed o hinj n acts hok hpre, ?_⟩
-  intro cfg n scripts hsc hnd
-  apply layoutOk_of_wellformed o cfg n _ hnd
+  intro cfg n scripts hok hseq
+  have hids := sequential_ids_unique o hinj scripts hok hseq
+  refine ⟨hids, ?_⟩
+  apply layoutOk_of_wellformed o cfg n _ (nodeIds_nodup_of_procIds hids)
   intro p hp
-  unfold built at hp
   obtain ⟨sc, hsc', rfl⟩ := List.mem_map.mp hp
-  exact wellformed_flowsClosed (process_wellformed o hinj sc.1 sc.2 (hsc sc hsc').1 (hsc sc hsc').2)
+  exact wellformed_flowsClosed (process_wellformed o hinj sc.1 sc.2 (hok sc hsc') (presets_distinct_of_all scripts hseq.2 sc hsc'))
 
 /-- the full statement fails on the faithful model: `AddActivity(&schema.Transaction{})` -/
 theorem C19_counterexample_activity_not_stored : ¬ C19_statement := by
@@ -290,7 +330,15 @@ example : Injective (fun k => k) := fun _ _ h => h
 example : ∀ a ∈ ([(Kind.task, none), (Kind.subProcess, some 1), (Kind.userTask, some 2)] : Acts), actOk a.1 := by decide
 example : presetsDistinct [(Kind.task, none), (Kind.subProcess, some 1), (Kind.userTask, some 2)] := by decide
 example : GapsCover ⟨768, 768, 1440, 960, 1440, 8⟩ := by decide
+example : Sequential (fun k => k) [(1, [(Kind.task, none)]), (9, [(Kind.userTask, some 1)])] :=
+  ⟨⟨by decide, by decide, trivial⟩, by decide⟩
 example : (buildProcess (fun k => k) 0 [(Kind.task, none), (Kind.userTask, some 2)]).1.flows.length = 3 := by decide
+example : (nodeIds [(buildProcess (fun k => k) 0 [(Kind.task, none), (Kind.userTask, some 2)]).1]).Nodup := by decide
+example : flowsClosed (buildProcess (fun k => k) 0 [(Kind.task, none), (Kind.userTask, some 2)]).1 := by decide
+-- the default configuration in units of 1/8: end event, start event, task (flow element order) in one row
+example : ((layoutAll (fun k => k) ⟨768, 768, 1440, 960, 1440, 8⟩ 100 768
+      [(buildProcess (fun k => k) 0 [(Kind.task, none)]).1]).1.map (fun s => (s.x, s.y, s.w, s.h))) =
+    [(3648, 624, 288, 288), (768, 624, 288, 288), (2208, 448, 800, 640)] := by decide
 example : walk (buildProcess (fun k => k) 0 [(Kind.task, none), (Kind.userTask, some 2)]).1 10 (Id.gen .event 1)
     = [Id.gen .activity 2, Id.preset 2] := by decide
 
